@@ -459,6 +459,11 @@ theorem notParen_of_mem {k : String} {l : List String} (h : k ∈ l) (h1 : "LPAR
     k ≠ "LPAREN" ∧ k ≠ "RPAREN" :=
   ⟨fun e => h1 (e ▸ h), fun e => h2 (e ▸ h)⟩
 
+theorem bal_noParen : ∀ (l : List Tk), (∀ t ∈ l, t.1 ≠ "LPAREN" ∧ t.1 ≠ "RPAREN") → Bal l
+  | [], _ => .nil
+  | t :: r, h => .tok t r (h t List.mem_cons_self).1 (h t List.mem_cons_self).2
+      (bal_noParen r fun t' ht' => h t' (List.mem_cons_of_mem _ ht'))
+
 theorem bal_flat {L : Nat} {e : X} (hw : WFX L e) : Bal e.flat := by
   induction hw with
   | id L x => exact Bal.single _ (by simp) (by simp)
@@ -466,10 +471,13 @@ theorem bal_flat {L : Nat} {e : X} (hw : WFX L e) : Bal e.flat := by
     obtain ⟨h1, h2⟩ := notParen_of_mem (constType_kind hc) (by decide) (by decide)
     exact Bal.single _ h1 h2
   | paren L e _ ih => exact .paren _ _ _ [] ih .nil
-  | pre L k v e _ hk _ ih =>
+  | pre L k v e _ hk _ _ ih =>
     obtain ⟨h1, h2⟩ := notParen_of_mem hk (by decide) (by decide)
     exact .tok _ _ h1 h2 ih
-  | szof L e _ _ ih => exact .tok _ _ (by decide) (by decide) ih
+  | szof L e _ _ _ ih => exact .tok _ _ (by decide) (by decide) ih
+  | cast L tn e _ ht _ ih => exact .paren _ _ _ _ (bal_noParen _ (TypeName.tn_noParen ht)) ih
+  | szofT L tn _ ht =>
+    exact .tok _ _ (by decide) (by decide) (.paren _ _ _ [] (bal_noParen _ (TypeName.tn_noParen ht)) .nil)
   | post L k v e _ hk _ ih =>
     obtain ⟨h1, h2⟩ := notParen_of_mem hk (by decide) (by decide)
     exact ih.append (Bal.single _ h1 h2)
